@@ -39,11 +39,8 @@ C02_MUTATORS = {"core/iterators.py:__lshift__.lshift_iterator.__iter__",
 
 def run(ctx):
     ctx.eff
-    r1(ctx)
-    r2(ctx)
-    r3(ctx)
-    r4(ctx)
-    r5(ctx)
+    for r in (r1, r2, r3, r4, r5):
+        ctx.guard(r)
     ctx.assume("populate's run-time assert `id(a_payload) == id(popped)` "
                "guards that the popped fiber is the one just created; a loop "
                "body that registers another fiber in the same rank trips it "
@@ -322,6 +319,32 @@ def r4(ctx):
             n += 1
             _classify_setowner(ctx, f, c)
     ctx.floor("C02.R4", n, 7, "setOwner call sites")
+    # the two membership methods must move ownership themselves
+    f = ctx.method("Rank", "pop")
+    pops = [c for c in pat.calls(f, attr="pop") if text(c.func.value) == "self.fibers"]
+    ctx.require(pops, "C02.R4: Rank.pop no longer pops self.fibers")
+    cleared = [c for c in pat.calls(f, attr="setOwner") if c.args and
+               isinstance(c.args[0], ast.Constant) and c.args[0].value is None]
+    if cleared:
+        ctx.ok("C02.R4", f, pops[0], "popped fiber is disowned")
+    else:
+        ctx.bad("C02.R4", f, pops[0], "Rank.pop removes the fiber from the "
+                "list but leaves its owner set: the removed fiber still "
+                "reports this rank as owner")
+    f = ctx.method("Rank", "append")
+    apps = [c for c in pat.calls(f, attr="append") if text(c.func.value) == "self.fibers"]
+    ctx.require(apps, "C02.R4: Rank.append no longer appends to self.fibers")
+    owned = [c for c in pat.calls(f, attr="setOwner") if c.args and
+             text(c.args[0]) == "self" and apps[0].args and
+             text(c.func.value) == text(apps[0].args[0])]
+    g = cfg_of(f, assert_edges=False)
+    if owned and all(g.dominates(enclosing_stmt(c), enclosing_stmt(apps[0]))
+                     for c in owned):
+        ctx.ok("C02.R4", f, apps[0], "listed fiber is owned by this rank")
+    else:
+        ctx.bad("C02.R4", f, apps[0], "Rank.append lists the fiber without "
+                "making this rank its owner: the fiber does not report the "
+                "rank that lists it")
 
 
 def _classify_setowner(ctx, f, c):
